@@ -20,7 +20,8 @@ ACTIVITIES = {
     "sleep": "import time\nchannel.send('started')\ntime.sleep(100000)\n",
     "swallow_kbi": ("import time\nchannel.send('started')\nwhile True:\n    try:\n        while True:\n            time.sleep(0.02)\n"
                     "    except KeyboardInterrupt:\n        pass\n"),
-    "sigint_ignored": "import signal, time\nsignal.signal(signal.SIGINT, signal.SIG_IGN)\nchannel.send('started')\nwhile True:\n    time.sleep(0.05)\n",
+    # SIG_IGN installed through libc so that it works from whatever thread the body happens to run in
+    "sigint_ignored": "import ctypes, time\nctypes.CDLL(None).signal(2, 1)\nchannel.send('started')\nwhile True:\n    time.sleep(0.05)\n",
     "daemon_threads": ("import threading, time\n"
                        "def spin():\n    while True:\n        time.sleep(0.01)\n"
                        "for i in range(3):\n    t = threading.Thread(target=spin)\n    t.daemon = True\n    t.start()\n"
@@ -94,6 +95,9 @@ def main():
             ch = gws[g["id"]].remote_exec(src)
             chans.append(ch)
             assert ch.receive(30) == "started"
+    # signals last: a stopped/killed master could not start its sub-gateways' activities any more
+    for g in case["gateways"]:
+        act = g.get("activity", "idle")
         if act == "stopped":
             os.kill(workers[g["id"]], signal.SIGSTOP)
         elif act == "killed":
@@ -127,9 +131,42 @@ def main():
             threading.Thread(target=lambda io=io: _quiet(io.close_read), daemon=True).start()
         emit(event="connections_closed")
         time.sleep(100000)
+    elif action == "failing_makegateway":
+        before = [gw.id for gw in group]
+        variant = case["variant"]
+        emit(event="attempt_begin", variant=variant)
+        outcome = "returned"
+        try:
+            if variant == "dup_explicit":
+                group.makegateway("popen//id=%s" % before[0])
+            elif variant == "dup_explicit_python":
+                group.makegateway("popen//python=%s//id=%s" % (sys.executable, before[0]))
+            elif variant == "explicit_equals_next_auto":
+                nxt = "gw%d" % group._autoidcounter
+                group.makegateway("popen//id=" + nxt)
+                emit(event="note", msg="explicit id %s registered" % nxt)
+                emit(event="attempt_begin", variant=variant + ":auto")
+                group.makegateway("popen")
+            elif variant == "dead_interpreter":
+                gw = group.makegateway("popen//python=/bin/false//id=dead")
+                outcome = "returned a gateway"
+            elif variant == "via_dup":
+                group.makegateway("popen//via=%s//id=%s" % (before[0], before[0]))
+        except BaseException as e:  # noqa
+            outcome = type(e).__name__ + ": " + str(e)[:200]
+        emit(event="attempt_end", outcome=outcome, before=before, after=[gw.id for gw in group])
+        time.sleep(case.get("linger", 2.0))
+        group.terminate(1.0)
+        os._exit(0)
     else:
         raise ValueError(action)
 
 
 if __name__ == "__main__":
-    main()
+    try:
+        main()
+    except BaseException as e:  # noqa
+        import traceback
+
+        emit(event="initiator_error", error=type(e).__name__ + ": " + str(e)[-400:], tb=traceback.format_exc()[-800:])
+        os._exit(3)
